@@ -93,7 +93,12 @@ def main():
         for r in ex.map(lambda c: one(c[0], c[1], kf, args), commits):
             results.append(r)
             print("%s %-10s %s | %s" % (r["commit"], r.get("status"), ",".join(r.get("detected_by", [])), r["subject"][:90]), flush=True)
-    json.dump(results, open(os.path.join(V, "seeded", "revert_sweep.json"), "w"), indent=1)
+    allp = os.path.join(V, "seeded", "revert_sweep.json")
+    if args.only and os.path.exists(allp):          # partial run: merge into the full table
+        old = [r for r in json.load(open(allp)) if r["commit"] not in {x["commit"] for x in results}]
+        json.dump(old + results, open(allp, "w"), indent=1)
+    else:
+        json.dump(results, open(allp, "w"), indent=1)
     missed = [r for r in results if r.get("status") == "MISSED"]
     print("total %d, detected %d, missed %d, not applicable %d" % (
         len(results), sum(r.get("status") == "detected" for r in results), len(missed),
